@@ -57,6 +57,12 @@ var c11Patches = []c11Patch{
 		Text:  "@@\nvar foo identifier\nvar x expression\n@@\n-import foo \"" + c11P + "\"\n+import foo \"" + c11Q + "\"\n\n-openDriver(\"old\", x)\n+openDriver(\"new\", x)\n",
 		Minus: []impSpec{{"$", c11P}}, Plus: []impSpec{{"$", c11Q}},
 		Site: func(n string, r *rand.Rand) string { return "openDriver(\"old\", " + fmt.Sprint(r.Intn(9)) + ")" }},
+	// whatever the file calls the import, it becomes a blank import; for a file that has it as a blank import already the
+	// '-' and the '+' line name the same import, and it stays
+	{Name: "any-to-blank", Action: "replace-path-metavar",
+		Text:  "@@\nvar foo identifier\nvar x expression\n@@\n-import foo \"" + c11P + "\"\n+import _ \"" + c11P + "\"\n\n-openDriver(\"old\", x)\n+openDriver(\"new\", x)\n",
+		Minus: []impSpec{{"$", c11P}}, Plus: []impSpec{{"_", c11P}},
+		Site: func(n string, r *rand.Rand) string { return "openDriver(\"old\", " + fmt.Sprint(r.Intn(9)) + ")" }},
 	{Name: "match-only", Action: "match",
 		Text: "@@\n@@\n import \"" + c11P + "\"\n\n-foo.Old()\n+foo.New()\n",
 		Ctx:  []impSpec{{"", c11P}},
@@ -368,7 +374,7 @@ func runC11(ctx *core.Ctx, idx int) *core.Result {
 	for f := 0; f < 4; f++ {
 		// form of the affected import in the file
 		form := []string{"unnamed", "named-f", "named-foo", "absent", "unnamed", "named-f", "named-like-new-path"}[r.Intn(7)]
-		if strings.HasPrefix(p.Name, "replace-any-driver") && r.Intn(2) == 0 {
+		if (strings.HasPrefix(p.Name, "replace-any-driver") || strings.HasPrefix(p.Name, "any-to-blank")) && r.Intn(2) == 0 {
 			form = []string{"blank", "dot"}[r.Intn(2)]
 		}
 		var specs []impSpec
